@@ -150,32 +150,23 @@ class DeviceInfoCache:
         # get the current keys
         cache_id, cache_address = getattr(device_info, '_cache_keys', (None, None))
 
-        if cache_id is None:
-            if _debug: DeviceInfoCache._debug("    - new device identifier")
-
-            # new record, add a reference
-            if device_info.deviceIdentifier is not None:
-                self.cache[device_info.deviceIdentifier] = device_info
-
-        elif device_info.deviceIdentifier != cache_id:
+        # remove the references under keys the record has given up, unless
+        # some other record has taken such a key over in the meantime
+        if (cache_id is not None) and (device_info.deviceIdentifier != cache_id):
             if _debug: DeviceInfoCache._debug("    - device identifier updated")
+            if self.cache.get(cache_id, None) is device_info:
+                del self.cache[cache_id]
 
-            # remove the old reference, add the new one
-            del self.cache[cache_id]
-            self.cache[device_info.deviceIdentifier] = device_info
-
-        if cache_address is None:
-            if _debug: DeviceInfoCache._debug("    - new device address")
-
-            # new record, add a reference
-            if device_info.address is not None:
-                self.cache[device_info.address] = device_info
-
-        elif device_info.address != cache_address:
+        if (cache_address is not None) and (device_info.address != cache_address):
             if _debug: DeviceInfoCache._debug("    - device address updated")
+            if self.cache.get(cache_address, None) is device_info:
+                del self.cache[cache_address]
 
-            # remove the old reference, add the new one
-            del self.cache[cache_address]
+        # the record is found by its identifier and by its address, also
+        # when some other record had taken one of them over
+        if device_info.deviceIdentifier is not None:
+            self.cache[device_info.deviceIdentifier] = device_info
+        if device_info.address is not None:
             self.cache[device_info.address] = device_info
 
         # update the keys
